@@ -62,6 +62,7 @@ type RouterEnv struct {
 	mu        sync.Mutex
 	behaviour map[string]Behaviour
 	queries   map[string][]UpQuery
+	kinds      string // upstream kinds of the cfgspec (U=...)
 	keyed      bool
 	keyedTTL   uint32
 	keyedDelay time.Duration
@@ -149,6 +150,27 @@ func (e *RouterEnv) lookup(idx int, proto string, wire []byte) (Behaviour, bool)
 		if e.keyedDelay > 0 && len(wire) >= 2 {
 			h := sha256.Sum256(wire)
 			d = time.Duration(uint64(binary.BigEndian.Uint32(h[:4])) % uint64(e.keyedDelay))
+		}
+		switch KeyedClass(key) {
+		case "fail":
+			// udp:// upstream: truncated reply, then the TCP repeat (a one-query-at-a-time connection) is closed;
+			// tcp upstreams: an upstream SERVFAIL (closing a pipelined connection would fail every exchange on it)
+			if idx < len(e.kinds) && e.kinds[idx] == 'u' {
+				if proto == "udp" {
+					return Behaviour{Kind: "reply", Reply: keyedTruncated(wire), Delay: d}, true
+				}
+				return Behaviour{Kind: "close"}, true
+			}
+			sf := keyedTruncated(wire)
+			if sf != nil {
+				sf[2] = 0x81
+				sf[3] = 0x82
+			}
+			return Behaviour{Kind: "reply", Reply: sf, Delay: d}, true
+		case "tc": // UDP: truncated reply; the TCP repeat is answered normally
+			if proto == "udp" {
+				return Behaviour{Kind: "reply", Reply: keyedTruncated(wire), Delay: d}, true
+			}
 		}
 		return Behaviour{Kind: "reply", Reply: KeyedReply(wire, e.keyedTTL), Delay: d}, true
 	}
@@ -307,6 +329,7 @@ func NewRouterEnv(spec string) (*RouterEnv, error) {
 	}
 	env.dir = dir
 	cfg := &router.Config{}
+	env.kinds = parts["U"]
 	for i, k := range parts["U"] {
 		fu, err := newFakeUpstream(env, i)
 		if err != nil {
@@ -570,6 +593,33 @@ func KeyedAnswer(key string) [][4]byte {
 		copy(out[i][:], h[1+4*i:5+4*i])
 	}
 	return out
+}
+
+// KeyedClass partitions the questions of the keyed upstream: "fail" (every exchange for it fails: TC on UDP and a
+// closed TCP leg), "tc" (TC on UDP, answered over TCP), "plain".
+func KeyedClass(key string) string {
+	h := sha256.Sum256([]byte(key))
+	if h[31]%8 != 0 {
+		return "plain"
+	}
+	if h[30]%2 == 0 {
+		return "fail"
+	}
+	return "tc"
+}
+
+func keyedTruncated(q []byte) []byte {
+	qe := QuestionEnd(q)
+	if qe < 0 {
+		return nil
+	}
+	r := append([]byte(nil), q[:qe]...)
+	r[2] = 0x83 // QR, TC, RD
+	r[3] = 0x80
+	for i := 6; i < 12; i++ {
+		r[i] = 0
+	}
+	return r
 }
 
 // KeyedReply builds the reply of the keyed upstream for query q (nil if q has no parsable question).
